@@ -25,7 +25,7 @@ def run(ctx):
         if len(o) == 3 and op.startswith("ins"):
             ctx.count("ackranges:outcome:" + o[1].split(":")[0])
     import gen.ack_ranges as g
-    if ctx.tier == "thorough" or ctx.escalated:
+    if ctx.tier == "thorough" or ctx.deep:
         ctx.exhaustive = True
         sizes = {str(l): g.closure(l, list(range(10)))[1] for l in (1, 2, 3, 4, 5)}
         ctx.extra["exhaustive_ackranges"] = {
